@@ -364,7 +364,7 @@ def reduce_rules(ctx):
     L, R = A("left['data'][i][bint]"), A("right['data'][i][bint]")
     xl, xr, p = A("left['normal'][bint]"), A("right['normal'][bint]"), A("self.pos")
     tgt = e.get("data[bint]")
-    ienv = local_env(fi.node)
+    ienv = rules.local_env_at(fi.node, tgt.value if tgt else None)
     ienv["bint"] = None
     formulas.formula_rule(ctx, f"{P}.INTERPOLATION", fi, tgt.value if tgt else None, (L * (xr - p) + R * (p - xl)) / (xr - xl),
                           (), "linear interpolation between the bracketing samples", "formula", ienv)
